@@ -372,10 +372,11 @@ Lemma iset_entries items k slot' x ks :
   (forall it it', iset ks x it = Some it' -> abs_item it' = spec_iset ks (abs_item x) (abs_item it)) ->
   iset ks x (snd (entry_or_none items k)) = Some slot' ->
   absl (kv_set (fst (entry_or_none items k)) k slot')
-  = e_put k (spec_iset ks (abs_item x) (match e_get k (absl items) with Some c => c | None => PNone end)) (absl items).
+  = e_put k (spec_iset ks (abs_item x)
+                       (match e_get k (e_forget k (absl items)) with Some c => c | None => PNone end)) (absl items).
 Proof.
-  intros IH H. unfold entry_or_none in *. rewrite e_put_rec, e_get_rec, absl_get.
-  destruct (kv_get items k) as [[k' i]|] eqn:G; simpl in *.
+  intros IH H. unfold entry_or_none in *. rewrite e_put_rec, e_get_rec, e_forget_rec, <- absl_purge, absl_get.
+  destruct (kv_get (kv_purge items k) k) as [[k' i]|] eqn:G; simpl in *.
   - rewrite absl_set. rewrite (IH _ _ H). reflexivity.
   - rewrite (kv_get_push_self _ _ _ G), absl_push. simpl. rewrite (IH _ _ H). reflexivity.
 Qed.
@@ -388,7 +389,7 @@ Proof.
   - destruct it as [|[s r d|vals tr c d sp|items pre im dt d sp]|[items d im dt p sp]|ts sp]; try discriminate.
     + (* Item::None: becomes an inline table holding the placeholder *)
       assert (EO : entry_or_none [(key_new k, INone)] k = ([(key_new k, INone)], INone)).
-      { unfold entry_or_none. simpl. rewrite bytes_eqb_refl. reflexivity. }
+      { unfold entry_or_none, kv_purge. simpl. rewrite ?bytes_eqb_refl. simpl. rewrite ?bytes_eqb_refl. reflexivity. }
       rewrite EO in H.
       destruct (iset ks x INone) as [slot'|] eqn:E; simpl in H; [|discriminate]. injection H as <-.
       simpl. rewrite bytes_eqb_refl. simpl. rewrite (IH _ _ E). reflexivity.
@@ -550,10 +551,10 @@ Proof.
 Qed.
 
 (* insert: an existing key keeps its position, a new key goes last; nothing else moves *)
-Lemma e_put_keys k x l :
-  map fst (e_put k x l) = match e_get k l with Some _ => map fst l | None => map fst l ++ [k] end.
+Lemma e_put0_keys k x l :
+  map fst (e_put0 k x l) = match e_get k l with Some _ => map fst l | None => map fst l ++ [k] end.
 Proof.
-  rewrite e_put_rec, e_get_rec. destruct (r_get k l).
+  rewrite e_put0_rec, e_get_rec. destruct (r_get k l).
   - apply r_upd_keys.
   - rewrite map_app. reflexivity.
 Qed.
@@ -583,18 +584,33 @@ Proof.
   - destruct (bytes_eqb k' k); [discriminate|]. apply IH. exact H.
 Qed.
 
-Lemma e_put_get_same k x l : e_get k (e_put k x l) = Some x.
+Lemma e_put0_get_same k x l : e_get k (e_put0 k x l) = Some x.
 Proof.
-  rewrite e_get_rec, e_put_rec. destruct (r_get k l) eqn:G.
+  rewrite e_get_rec, e_put0_rec. destruct (r_get k l) eqn:G.
   - rewrite r_get_upd_same, G. reflexivity.
   - apply r_get_app_same. exact G.
 Qed.
-Lemma e_put_get_other k k2 x l : bytes_eqb k2 k = false -> e_get k2 (e_put k x l) = e_get k2 l.
+Lemma e_put0_get_other k k2 x l : bytes_eqb k2 k = false -> e_get k2 (e_put0 k x l) = e_get k2 l.
 Proof.
-  intro N. rewrite !e_get_rec, e_put_rec. destruct (r_get k l).
+  intro N. rewrite !e_get_rec, e_put0_rec. destruct (r_get k l).
   - apply r_get_upd_other. exact N.
   - apply r_get_app_other. exact N.
 Qed.
+
+(* a key that only holds a placeholder counts as new; otherwise nothing is forgotten *)
+Lemma e_put_placeholder k x l : e_get k l = Some PNone -> e_put k x l = e_put0 k x (e_del k l).
+Proof. intro H. unfold e_put, e_forget. rewrite H. reflexivity. Qed.
+Lemma e_put_plain k x l : e_get k l <> Some PNone -> e_put k x l = e_put0 k x l.
+Proof. intro H. unfold e_put, e_forget. destruct (e_get k l) as [[| | |]|]; congruence. Qed.
+
+Lemma e_put_keys k x l : e_get k l <> Some PNone ->
+  map fst (e_put k x l) = match e_get k l with Some _ => map fst l | None => map fst l ++ [k] end.
+Proof. intro H. rewrite (e_put_plain k x l H). apply e_put0_keys. Qed.
+Lemma e_put_get_same k x l : e_get k (e_put k x l) = Some x.
+Proof. unfold e_put. apply e_put0_get_same. Qed.
+Lemma e_put_get_other k k2 x l : e_get k l <> Some PNone ->
+  bytes_eqb k2 k = false -> e_get k2 (e_put k x l) = e_get k2 l.
+Proof. intros H N. rewrite (e_put_plain k x l H). apply e_put0_get_other. exact N. Qed.
 
 (* remove: the other entries keep their order and values *)
 Lemma e_del_keys k l : map fst (e_del k l) = del_first k (map fst l).
